@@ -2,6 +2,7 @@ import FractopoModel.Basic.Wire
 import FractopoModel.Basic.Clip
 import FractopoModel.Generated.UnderlapValidator
 import FractopoModel.Generated.AreaValidator
+import FractopoModel.Generated.ValidationUtils
 /-!
 # Runs the REGENERATED `UnderlappingSnapValidator.validation_method` and `TargetAreaSnapValidator.validation_method`
 (translator validation, stream S10-generated).  Distances are exact and squared (thresholds and multipliers are passed squared);
@@ -41,6 +42,28 @@ def areavalCmd (a : Args) : Option String := do
     (fun p (row : AreaRow × Nat) => AreaRow.boundaryDist2 row.1 p) geom rows (t * t) (m * m) (ae * ae)
   some s!"ok={showBool r}"
 
+/-- `gisul t= m= ep=x,y split=<pieces|…>|FAIL`: the regenerated `is_underlapping` on a scripted split result -/
+def gisul (a : Args) : Option String := do
+  let t ← (a.get? "t") >>= parseRat?
+  let m ← (a.get? "m") >>= parseRat?
+  let ep ← (a.get? "ep") >>= parsePt?
+  let sp := (a.get? "split").getD "FAIL"
+  let pieces : Option (List Polyline) ← if sp == "FAIL" then some none else (parseLines? sp).map some
+  let r := Gen.is_underlapping (fun (_ _ : Unit) => pieces) (fun (sg : Polyline) (p : Pt) => (ptLineDist2 p sg).getD 0) () () ep (t * t) (m * m)
+  some s!"r={match r with | none => "none" | some true => "true" | some false => "false"}"
+
+/-- `gtri t= k= ip=0|1 split=<pieces|…>|FAIL`: the regenerated `split_to_determine_triangle_errors` (with the regenerated
+`determine_middle_in_triangle`) on a scripted split result; two-vertex pieces, squared lengths and distances -/
+def gtri (a : Args) : Option String := do
+  let t ← (a.get? "t") >>= parseRat?
+  let k ← (a.get? "k") >>= parseRat?
+  let ip ← (a.get? "ip") >>= parseBool?
+  let sp := (a.get? "split").getD "FAIL"
+  let pieces : Option (List Polyline) ← if sp == "FAIL" then some none else (parseLines? sp).map some
+  let r := Gen.split_to_determine_triangle_errors (fun (_ _ : Unit) => pieces) (fun _ _ => ip) (fun (x y : Polyline) => (lineLineDist2 x y).getD 0)
+    (fun (x : Polyline) => (segLens2 x).sum) () () (t * t) (k * k)
+  some s!"r={showBool r}"
+
 def dispatch (line : String) : String :=
   let toks := (line.trimAscii.toString.splitOn " ").filter (· ≠ "")
   match toks with
@@ -51,6 +74,8 @@ def dispatch (line : String) : String :=
       match cmd with
       | "underlap" => underlapCmd a
       | "areaval" => areavalCmd a
+      | "gisul" => gisul a
+      | "gtri" => gtri a
       | _ => some s!"error=unknown-command:{cmd}"
     r.getD "error=bad-arguments"
 
